@@ -550,10 +550,31 @@ func (c *minecraftConn) SetOutboundState(s *state.Registry) {
 }
 
 func (c *minecraftConn) EnablePlayPacketQueue() {
-	if c.mu.TryLock() {
-		defer c.mu.Unlock()
-	}
+	c.mu.Lock()
+	defer c.mu.Unlock()
 	c.activatePlayPacketQueue()
+}
+
+// BufferPacketAndSetOutboundState buffers the packet for the current outbound state and
+// then switches the outbound writer state (see SetOutboundState) in one step with respect
+// to concurrent writers: every other packet is either written before the given packet or
+// handled under the new state (e.g. held in the play packet queue while in config state).
+func (c *minecraftConn) BufferPacketAndSetOutboundState(packet proto.Packet, s *state.Registry) (err error) {
+	if Closed(c) {
+		return ErrClosedConn
+	}
+	defer func() {
+		if err != nil {
+			c.closeOnWriteErr(err, "bufferPacket", fmt.Sprintf("%T", packet))
+		}
+	}()
+	c.mu.Lock()
+	if _, err = c.wr.WritePacket(packet); err == nil {
+		c.wr.SetState(s)
+		c.ensurePlayPacketQueue(s.State)
+	}
+	c.mu.Unlock()
+	return err
 }
 
 // calling function must hold c.mu
